@@ -178,7 +178,17 @@ func HXssOrT(kind int, idx int, ctx int, sep int) {
 	case 2:
 		name = [...]string{"xmlns", "xlink"}[idx]
 	}
-	v := vBreakout(ctx, false) + vAttrSep(sep) + vName(name, 0) + "=" + vB(vByteIn("ax1(")) + vNondetString(1)
+	pre := vBreakout(ctx, false)
+	if sep >= 100 {
+		// the context's closing quote is the very first input byte (offset 0 is special-cased by the tokenizer and is
+		// where "does the input contain a quote" shortcuts go wrong); for the unquoted context: no leading filler
+		sep -= 100
+		pre = pre[1:]
+		if ctx == 0 {
+			pre = "<a"
+		}
+	}
+	v := pre + vAttrSep(sep) + vName(name, 0) + "=" + vB(vByteIn("ax1(")) + vNondetString(1)
 	got := IsXSS(v)
 	want := false
 	for c := 0; c < 5; c++ {
